@@ -12,6 +12,7 @@ import (
 	"net"
 	"os"
 	"sync"
+	"sync/atomic"
 	"time"
 
 	"github.com/twmb/franz-go/pkg/kfake"
@@ -153,6 +154,7 @@ func (n *Net) Block(kill bool) {
 	}
 	n.mu.Unlock()
 	for _, c := range cs {
+		c.killed.Store(true)
 		c.Conn.Close()
 	}
 }
@@ -169,6 +171,7 @@ func (n *Net) KillAll() {
 	}
 	n.mu.Unlock()
 	for _, c := range cs {
+		c.killed.Store(true)
 		c.Conn.Close()
 	}
 }
@@ -227,6 +230,7 @@ type conn struct {
 	rerr    error
 	pmu     sync.Mutex
 	pending map[int32]*ReqInfo
+	killed  atomic.Bool // KillAll / Block(kill): nothing is delivered any more, not even a response held back by a delay
 }
 
 func (c *conn) Close() error {
@@ -351,10 +355,19 @@ func (c *conn) Read(p []byte) (int, error) {
 		delayAll, blackhole := c.n.DelayAll, c.n.Blackhole
 		c.n.mu.Unlock()
 		if blackhole {
+			if ri != nil {
+				c.n.mu.Lock()
+				ri.Handled = true // the broker answered; the answer is what gets lost
+				c.n.mu.Unlock()
+			}
 			continue // drop the response, keep waiting (until the client gives up and closes)
 		}
 		if delayAll > 0 {
 			time.Sleep(delayAll)
+		}
+		if c.killed.Load() {
+			c.rerr = errors.New("faultnet: connection killed")
+			return 0, c.rerr
 		}
 		var rule Rule
 		if ri != nil {
@@ -396,6 +409,10 @@ func (c *conn) Read(p []byte) (int, error) {
 			c.rbuf = append(append(c.rbuf, hdr[:]...), body...)
 		case DelayResponse:
 			time.Sleep(rule.Delay)
+			if c.killed.Load() {
+				c.rerr = errors.New("faultnet: connection killed")
+				return 0, c.rerr
+			}
 			c.rbuf = append(append(c.rbuf, hdr[:]...), body...)
 		default:
 			c.rbuf = append(append(c.rbuf, hdr[:]...), body...)
